@@ -3,7 +3,8 @@
 Decided: tick arrays enter the swap only through the checked loader with this pool's key;
 an array that does not exist on-chain is proxied by a zeroed array only if its PDA (this
 pool, that start index) is among the supplied accounts, otherwise the sequence stops, and an
-empty sequence fails; supplied accounts are sorted and de-duplicated by key; the start
+empty sequence fails; a loaded array is found wherever it sits among the loaded ones (the test that
+chooses the initialised proxy is not computed from one end of the collection); supplied accounts are sorted and de-duplicated by key; the start
 indexes follow the direction (and the shifted state); the next-initialised-tick search of
 the fixed, dynamic and zeroed arrays agree except for the initialised-test primitive and all
 use the shifted search range for b->a; the hand-over between arrays and the MIN / MAX /
@@ -90,6 +91,27 @@ def R2_proxy_and_order(run):
     dp = calls_to(tb, ends("derive_tick_array_pda"))
     okp = okp and len(dp) == 1 and is_param(dp[0][2][0], "whirlpool")
     run.check("R2", "pda-compared", okp, "try_build does not compare supplied keys with derive_tick_array_pda(whirlpool, start index)", loc=tb.loc(), detail="account key == derive_tick_array_pda(pool, start)")
+    # a loaded array is found wherever it sits among the loaded ones: the accounts arrive sorted by key, not by start index, so a test that only
+    # looks at one end of the collection (front/first/last/peek) leaves a supplied, initialised array behind and proxies it by a zeroed one
+    ni = [c[0] for c in calls_to(tb, ends("ProxiedTickArray::<'a>::new_initialized"))]
+    dec = []
+    for bi, bb in enumerate(tb.blocks):
+        t = bb["t"]
+        if bb["c"] or t["k"] != "switch" or not ni:
+            continue
+        succ = {b for _, b in t["ts"]} | {t["o"]}
+        r = [any(n in cfg.reach(tb, s_, cut_blocks=[bi]) for n in ni) for s_ in succ]
+        if any(r) and not all(r) and all(cfg.dominates(tb, bi, n) for n in ni):
+            dec.append(bi)
+    near = [b for b in dec if not any(o != b and cfg.dominates(tb, b, o) for o in dec)]
+    names = set()
+    for b in near:
+        names |= {x[1].rsplit("::", 1)[-1] for x in subterms(pvt.operand(tb.blocks[b]["t"]["d"], b, len(tb.blocks[b]["s"]))) if x[0] == "call"}
+    one_end = names & {"front", "first", "back", "last", "peek", "pop_front", "pop_back", "pop", "front_mut", "first_mut", "last_mut", "back_mut"}
+    whole = names & {"position", "rposition", "find", "find_map", "any", "binary_search_by_key", "binary_search_by", "contains_key", "get", "remove", "next"}
+    run.check("R2", "loaded-array-found-anywhere", bool(ni) and bool(near) and not (one_end and not (whole - {"next"})),
+              "whether a required array was loaded is decided from one end of the loaded collection (%s) instead of a search over all loaded arrays" % ",".join(sorted(one_end)) if ni and near
+              else "try_build no longer builds an initialised proxy under a recognisable test", loc=tb.loc(), detail="loaded.iter().position(|a| a.start_tick_index() == start)")
     d = facts.need_fn("util::sparse_swap::derive_tick_array_pda")
     cs = calls_to(d, ends("find_program_address"))
     ok = len(cs) == 1
